@@ -78,6 +78,7 @@ fn arg_json(a: &Arg) -> Value {
         Arg::G(v) => json!({"G": format!("{}", v)}),
         Arg::B(a, b, c, d) => json!({"B": [a, b, c, d]}),
         Arg::S(a, b) => json!({"S": [a, b]}),
+        Arg::SG(s, v) => json!({"SG": [s, format!("{}", v)]}),
     }
 }
 
@@ -88,6 +89,8 @@ fn arg_of(v: &Value) -> Arg {
         Arg::F(f32::from_bits(x.as_u64().unwrap_or(0) as u32))
     } else if let Some(x) = v.get("G") {
         Arg::G(x.as_str().unwrap_or("0").parse().unwrap_or(0))
+    } else if let Some(x) = v.get("SG") {
+        Arg::SG(x[0].as_u64().unwrap_or(0) as u8, x[1].as_str().unwrap_or("0").parse().unwrap_or(0))
     } else if let Some(x) = v.get("B") {
         let g = |i: usize| x[i].as_u64().unwrap_or(0) as u8;
         Arg::B(g(0), g(1), g(2), g(3))
@@ -105,6 +108,10 @@ fn unique_arg(ty: &str, n: u32) -> Arg {
         "F" => Arg::F(f32::from_bits((x & 0x7F7F_FFFF) | 0x0080_0000)), // finite, non-NaN
         "G" => Arg::G(((x as u64) << 32) | (n as u64 + 1)),
         "B" => Arg::B(x as u8, (x >> 8) as u8, (x >> 16) as u8, (x >> 24) as u8),
+        // enumerator-typed bytes: values that are declared in every expansion
+        "R" => Arg::B(1 + (n % 4) as u8, 1 + ((n / 4) % 4) as u8, ((n / 16) % 2) as u8, ((n / 32) % 4) as u8),
+        "U" => Arg::B((n % 4) as u8, (x >> 8) as u8, (x >> 16) as u8, (x >> 24) as u8),
+        "SG" => Arg::SG((n % 19) as u8, ((x as u64) << 32) | (n as u64 + 1)),
         _ => Arg::S(x as u16, (x >> 16) as u16),
     }
 }
@@ -118,6 +125,15 @@ fn words(a: &Arg) -> Vec<u32> {
         Arg::B(a, b, c, d) => vec![u32::from_le_bytes([*a, *b, *c, *d])],
         // the table does not fix the order of the halves of a TWO_SHORT; the library stores the first argument in the upper half
         Arg::S(a, b) => vec![((*a as u32) << 16) | *b as u32],
+        Arg::SG(_, v) => vec![*v as u32, (*v >> 32) as u32],
+    }
+}
+
+/// offset of the first word an accessor call touches, relative to the table entry (per-slot arrays)
+fn sub_offset(a: &Arg) -> u16 {
+    match a {
+        Arg::SG(slot, _) => *slot as u16 * 2,
+        _ => 0,
     }
 }
 
@@ -126,11 +142,11 @@ fn expect_got(ty: &str, vals: &BTreeMap<u16, u32>, off: u16) -> Got {
     match ty {
         "I" => Got::I(w0 as i32),
         "F" => Got::F(w0),
-        "G" => match vals.get(&(off + 1)) {
+        "G" | "SG" => match vals.get(&(off + 1)) {
             Some(w1) => Got::G(w0 as u64 | ((*w1 as u64) << 32)),
             None => Got::Absent, // not judged by the caller (partial guid)
         },
-        "B" => {
+        "B" | "R" | "U" => {
             let b = w0.to_le_bytes();
             Got::B(b[0], b[1], b[2], b[3])
         }
@@ -243,9 +259,9 @@ impl Check for C13 {
             let (e, k, f, t, via_builder) = &self.enumerated[i as usize];
             let a = arg_json(&unique_arg(t, i as u32));
             let ops = if *via_builder {
-                json!([{"op": "bset", "f": f, "t": t, "a": a}, {"op": "finalize"}, {"op": "get", "f": f, "t": t}, {"op": "flush"}])
+                json!([{"op": "bset", "f": f, "t": t, "a": a}, {"op": "finalize"}, {"op": "get", "f": f, "t": t, "slot": a["SG"][0]}, {"op": "flush"}])
             } else {
-                json!([{"op": "finalize"}, {"op": "flush"}, {"op": "set", "f": f, "t": t, "a": a}, {"op": "get", "f": f, "t": t}, {"op": "has_any_dirty"}, {"op": "flush"}, {"op": "has_any_dirty"}])
+                json!([{"op": "finalize"}, {"op": "flush"}, {"op": "set", "f": f, "t": t, "a": a}, {"op": "get", "f": f, "t": t, "slot": a["SG"][0]}, {"op": "has_any_dirty"}, {"op": "flush"}, {"op": "has_any_dirty"}])
             };
             return json!({"label": format!("{}:{}:{}", e.name(), k, f), "exp": e.name(), "kind": k, "ops": ops, "enumerated": true});
         }
@@ -277,12 +293,20 @@ impl Check for C13 {
             match rng.below(16) {
                 0..=5 => {
                     let (f, t) = pickf(&mut rng);
+                    if rng.chance(1, 6) {
+                        // write the value the field already holds (must still mark the field dirty)
+                        let prev = ops.iter().rev().find(|o: &&Value| (o["op"] == "set" || o["op"] == "bset") && o["f"] == f).cloned();
+                        if let Some(p) = prev {
+                            ops.push(json!({"op": "set", "f": f, "t": t, "a": p["a"], "same": true}));
+                            continue;
+                        }
+                    }
                     counter += 1;
                     ops.push(json!({"op": "set", "f": f, "t": t, "a": arg_json(&unique_arg(t, counter))}));
                 }
                 6..=8 => {
                     let (f, t) = pickf(&mut rng);
-                    ops.push(json!({"op": "get", "f": f, "t": t}));
+                    ops.push(json!({"op": "get", "f": f, "t": t, "slot": rng.below(19)}));
                 }
                 9 => ops.push(json!({"op": "dirty_reset"})),
                 10 => ops.push(json!({"op": "mark_fully_dirty"})),
@@ -368,11 +392,12 @@ impl Check for C13 {
                         }
                         Some(u) => {
                             let w = words(&a);
-                            if w.len() as u16 > u.size {
+                            let base = u.offset + sub_offset(&a);
+                            if sub_offset(&a) + w.len() as u16 > u.size {
                                 o.violate("accessor_addressing", format!("accessor-wider-than-table:{}:{}", tag, f), format!("{}: accessor {} writes {} words, the table lists size {} for {}", tag, f, w.len(), u.size, u.name));
                             }
                             for (k, v) in w.iter().enumerate() {
-                                m.touch(u.offset + k as u16, *v, name == "set");
+                                m.touch(base + k as u16, *v, name == "set");
                             }
                         }
                     }
@@ -394,16 +419,21 @@ impl Check for C13 {
                     let f = op["f"].as_str().unwrap_or("");
                     let t = op["t"].as_str().unwrap_or("I");
                     let (Some(x), Some(u)) = (mask.as_ref(), self.lookup(exp, &kind, f)) else { continue };
-                    if t == "G" && m.present.contains(&u.offset) != m.present.contains(&(u.offset + 1)) {
+                    let slot = op["slot"].as_u64().unwrap_or(0) as u8;
+                    let off = u.offset + if t == "SG" { slot as u16 * 2 } else { 0 };
+                    if t == "SG" && (slot as u16 * 2 + 2 > u.size) {
+                        continue;
+                    }
+                    if (t == "G" || t == "SG") && m.present.contains(&off) != m.present.contains(&(off + 1)) {
                         continue; // half a guid: not judged
                     }
-                    let want = expect_got(t, &m.value, u.offset);
-                    match um_get(exp, x, f) {
+                    let want = expect_got(t, &m.value, off);
+                    match um_get(exp, x, f, slot) {
                         None => o.count("getter_missing", 1),
                         Some(got) => {
                             o.count("gets", 1);
                             if got != want {
-                                o.violate("getter_returns_last_set", format!("getter:{}:{}", tag, f), format!("{}: op #{} getter {} returned {:?}, reference model holds {:?} (table offset {:#x})", tag, n, f, got, want, u.offset));
+                                o.violate("getter_returns_last_set", format!("getter:{}:{}", tag, f), format!("{}: op #{} getter {} (slot {}) returned {:?}, reference model holds {:?} (table offset {:#x})", tag, n, f, slot, got, want, off));
                             }
                         }
                     }
@@ -541,11 +571,11 @@ impl Check for C13 {
                                         for (k2, f, t) in um_setters(exp).iter().filter(|s| s.0 == kind).take(400) {
                                             let _ = k2;
                                             let Some(u) = self.lookup(exp, &kind, f) else { continue };
-                                            if *t == "G" && sent_vals.contains_key(&u.offset) != sent_vals.contains_key(&(u.offset + 1)) {
+                                            if (*t == "G" || *t == "SG") && sent_vals.contains_key(&u.offset) != sent_vals.contains_key(&(u.offset + 1)) {
                                                 continue;
                                             }
                                             let want = expect_got(t, &sent_vals, u.offset);
-                                            if let Some(got) = um_get(exp, &rx, f) {
+                                            if let Some(got) = um_get(exp, &rx, f, 0) {
                                                 if got != want {
                                                     o.violate("decode_written_form", format!("decoded-getter:{}:{}", tag, f), format!("{}: op #{} getter {} on the decoded object returns {:?}, the block carried {:?}", tag, n, f, got, want));
                                                     break;
